@@ -147,7 +147,7 @@ def measure_hold(ctx, rnd):
 def run(ctx):
     fs = forms()
     lims = limit_grid(fs)
-    K = dict(Bnd=M.BND, Forms=frozenset(fs), Preambles=frozenset({()}), MaxChunk=2 if ctx.tier == "quick" else 3,
+    K = dict(Bnd=M.BND, Forms=frozenset(fs), Preambles=frozenset({()}), Epilogues=frozenset({("r", "n")}), MaxChunk=2 if ctx.tier == "quick" else 3,
              Limits=frozenset(lims), HoldFix=True, OpenFix=OPENFIX, PreFix=True)
     ctx.bounds = {"forms": len(fs), "limit_settings": len(lims), "MaxChunk": K["MaxChunk"]}
     ctx.rule = ("every (form, limits) scenario of Multipart.tla (limits at the exact totals -1/0/+1) on parse_stream and "
